@@ -1,6 +1,7 @@
 package runinproc
 
 import (
+	"encoding/json"
 	"fmt"
 	"os"
 	"os/exec"
@@ -95,6 +96,7 @@ func TestPlan(t *testing.T) {
 	case "C05":
 		total := globEnumTotal()
 		p.Shards = append(p.Shards, ev.RangeShards("enum", "^TestGlobEnum$", total, total/32+1, env)...)
+		p.Shards = append(p.Shards, ev.ShardSpec{Name: "links", Test: "^TestGlobLinks$", Env: env})
 		n, checks := 4, 150
 		if thorough {
 			n, checks = 16, 400
@@ -327,6 +329,48 @@ func TestGlobEnum(t *testing.T) {
 	}
 }
 
+// TestGlobLinks: every non-empty subset of the link pool over three base trees.
+func TestGlobLinks(t *testing.T) {
+	s := ev.Open(t, "C05")
+	root := filepath.Join(workRoot(t), "proj")
+	bases := [][]string{nil, {"a.x", "src/a.x", ".env", "src/.h.x"}, globPool[:globPoolSize()]}
+	seen := map[string]bool{}
+	var idx uint64
+	for mask := 1; mask < 1<<len(linkPool); mask++ {
+		for _, base := range bases {
+			for _, via := range []bool{false, true} {
+				c := GlobCase{Patterns: globPatterns, Paths: base, ViaChain: via, Links: map[string]string{}}
+				for i, l := range linkPool {
+					if mask&(1<<i) != 0 {
+						c.Links[l[0]] = l[1]
+					}
+				}
+				idx++
+				payload, _ := json.Marshal(c)
+				s.Progress(idx, payload)
+				s.EvalN(2 * int64(len(c.Patterns)))
+				s.Class("trees")
+				if idx%17 == 0 {
+					s.Sample(map[string]any{"tree": c.Paths, "links": c.Links})
+				}
+				if f := execGlob(s, root, c); f != nil {
+					if s.IsKnown(f.Sig) {
+						s.Known(f.Sig, c)
+						continue
+					}
+					if !seen[f.Sig] {
+						seen[f.Sig] = true
+						s.Violation("glob", f.Sig, f.Msg, f.Size, c)
+					}
+				}
+			}
+		}
+	}
+	if s.Failed() {
+		t.Fatal("violations recorded")
+	}
+}
+
 var segNames = []string{"a", "b", "src", "sub", ".h", ".d", "-x", "z", "lib", "Z"}
 var fileNames = []string{"a.x", "b.x", ".h.x", "c.y", "-f.x", "z.x", "m", ".env", "a.x.bak", "[d]raft.x", "q*r.x", "dx.x"}
 
@@ -370,6 +414,29 @@ func genGlobCase(t *rapid.T) GlobCase {
 		}
 	}
 	c.ViaChain = rapid.Bool().Draw(t, "via_chain")
+	if rapid.IntRange(0, 2).Draw(t, "with_links") == 0 {
+		c.Links = map[string]string{}
+		nl := rapid.IntRange(1, 3).Draw(t, "nlinks")
+		for i := 0; i < nl; i++ {
+			depth := rapid.IntRange(0, 2).Draw(t, "ldepth")
+			var segs []string
+			for d := 0; d < depth; d++ {
+				segs = append(segs, rapid.SampledFrom(segNames).Draw(t, "lseg"))
+			}
+			kind := rapid.SampledFrom([]string{"file", "dir"}).Draw(t, "lkind")
+			name := rapid.SampledFrom(fileNames).Draw(t, "lname")
+			if kind == "dir" {
+				name = rapid.SampledFrom(segNames).Draw(t, "ldname")
+			}
+			all := append(append([]string(nil), segs...), name)
+			p := strings.Join(all, "/")
+			if free(all) && !files[p] && !dirs[p] {
+				files[p] = true // nothing else may be placed at or below a link
+				markDirs(segs)
+				c.Links[p] = kind
+			}
+		}
+	}
 	return c
 }
 
